@@ -8,30 +8,6 @@ From Wencry.Gen Require Import HashConst.
 Import ListNotations.
 Local Open Scope N_scope.
 
-Local Ltac nat_dm :=
-  repeat match goal with
-         | |- context [(?a / 64)%nat] =>
-             let q := fresh "q" in let r := fresh "r" in let E := fresh "E" in
-             pose proof (Nat.div_mod a 64 ltac:(discriminate)) as E;
-             pose proof (Nat.mod_upper_bound a 64 ltac:(discriminate));
-             set (q := (a / 64)%nat) in *; set (r := (a mod 64)%nat) in *; clearbody q r
-         | H : context [(?a / 64)%nat] |- _ =>
-             let q := fresh "q" in let r := fresh "r" in let E := fresh "E" in
-             pose proof (Nat.div_mod a 64 ltac:(discriminate)) as E;
-             pose proof (Nat.mod_upper_bound a 64 ltac:(discriminate));
-             set (q := (a / 64)%nat) in *; set (r := (a mod 64)%nat) in *; clearbody q r
-         | |- context [(?a mod 64)%nat] =>
-             let q := fresh "q" in let r := fresh "r" in let E := fresh "E" in
-             pose proof (Nat.div_mod a 64 ltac:(discriminate)) as E;
-             pose proof (Nat.mod_upper_bound a 64 ltac:(discriminate));
-             set (q := (a / 64)%nat) in *; set (r := (a mod 64)%nat) in *; clearbody q r
-         | H : context [(?a mod 64)%nat] |- _ =>
-             let q := fresh "q" in let r := fresh "r" in let E := fresh "E" in
-             pose proof (Nat.div_mod a 64 ltac:(discriminate)) as E;
-             pose proof (Nat.mod_upper_bound a 64 ltac:(discriminate));
-             set (q := (a / 64)%nat) in *; set (r := (a mod 64)%nat) in *; clearbody q r
-         end; lia.
-
 (* ------------------------------------------------------------------------------------ *)
 (** * 1. Generic list facts                                                              *)
 (* ------------------------------------------------------------------------------------ *)
